@@ -140,7 +140,24 @@ def _anchors(pattern: str, flags: int) -> T.Tuple[bool, bool]:
         head = all(alt_ok(list(b)) for b in a[1]) and len(tree) > 1
     else:
         head = alt_ok([tree[0]])
-    return tail, head
+    def any_at(t: T.Any, names: T.Tuple[str, ...]) -> bool:
+        for o2, a2 in t:
+            if str(o2) == 'AT' and str(a2) in names:
+                return True
+            if str(o2) == 'SUBPATTERN' and any_at(a2[-1], names):
+                return True
+            if str(o2) == 'BRANCH' and any(any_at(b, names) for b in a2[1]):
+                return True
+            if str(o2) in ('MAX_REPEAT', 'MIN_REPEAT', 'POSSESSIVE_REPEAT') and any_at(a2[2], names):
+                return True
+            if str(o2) in ('ASSERT', 'ASSERT_NOT', 'ATOMIC_GROUP') and any_at(a2[1] if str(o2) != 'ATOMIC_GROUP' else a2, names):
+                return True
+        return False
+    # 'no' needs positive evidence: no end (begin) anchor anywhere in the tree; an anchor in an unfamiliar place is 'unknown'
+    tail3 = 'yes' if tail else ('unknown' if any_at(tree, ('AT_END', 'AT_END_STRING')) else 'no')
+    first_consumes_other = str(tree[0][0]) in ('LITERAL', 'IN', 'ANY', 'NOT_LITERAL') and not head
+    head3 = 'yes' if head else ('no' if (not any_at(tree, ('AT_BEGINNING', 'AT_BEGINNING_STRING')) and first_consumes_other) else 'unknown')
+    return tail3, head3  # type: ignore[return-value]
 
 
 def _path_outcome(p: T.Any, subst: T.Callable[[ast.AST], ast.AST]) -> T.Tuple[T.Any, ...]:
@@ -304,7 +321,10 @@ def r2(ctx: RuleCtx) -> None:
     # the regex is applied with re.search: it must carry its own anchors (sa.rx decides languages of full matches)
     if not any(t.kind == 'regex' and t.table == 'dedup1_regex' for t in tests.values()):
         raise Undecided(f'{qn}: dedup1_regex is not consulted with re.search')
-    tail_ok, head_ok = _anchors(rxv.pattern, rxv.flags)
+    tail3, head3 = _anchors(rxv.pattern, rxv.flags)
+    if 'unknown' in (tail3, head3):
+        raise Undecided(f'dedup1_regex {rxv.pattern!r}: anchors are not in a recognised position (end: {tail3}, start: {head3})')
+    tail_ok, head_ok = tail3 == 'yes', head3 == 'yes'
     ctx.require(tail_ok, 'dedup1_regex is anchored at the end of the argument', amod, ROOT, 'dedup1_regex end anchor',
                 f'dedup1_regex {rxv.pattern!r} is searched without an end anchor: any argument merely containing lib*.so is treated as once-only', amod.cls(ROOT))
     ctx.require(head_ok, 'dedup1_regex starts at the beginning of the argument or after a path separator', amod, ROOT, 'dedup1_regex start anchor',
@@ -427,6 +447,31 @@ def _eff(st: ast.AST) -> T.Optional[str]:
     return None
 
 
+def _opaque_on(p: T.Any) -> str:
+    """First construct on a path whose effect on the queues is not modelled: a call of another method of self, or
+    self / self.pre / self.post handed to a callee or bound to another name."""
+    for ev in p.events:
+        e = ev.node
+        if e is None:
+            continue
+        roots = [e.iter] if ev.kind == 'iter' else [i.context_expr for i in e.items] if ev.kind == 'with' else [e]
+        for r in roots:
+            for n in ast.walk(r):
+                if isinstance(n, ast.Call):
+                    f = n.func
+                    if isinstance(f, ast.Attribute) and attr_chain(f.value) == 'self' and f.attr not in KEEP_CALLS:
+                        return short(n, 60)
+                    for a in list(n.args) + [k.value for k in n.keywords]:
+                        if attr_chain(a) in ('self', 'self.pre', 'self.post') and norm(f) not in ('len', 'reversed', 'iter', 'list', 'bool', 'enumerate'):
+                            if not (isinstance(f, ast.Attribute) and attr_chain(f.value) is not None and f.attr in ('extend', 'extendleft')):
+                                return short(n, 60)
+            if ev.kind == 'stmt' and isinstance(e, (ast.Assign, ast.AnnAssign)) and getattr(e, 'value', None) is not None \
+                    and attr_chain(e.value) in ('self.pre', 'self.post') \
+                    and isinstance(e.targets[0] if isinstance(e, ast.Assign) else e.target, ast.Name):
+                return short(e, 60)
+    return ''
+
+
 def _queues_emptied(ctx: RuleCtx, mod: Module, qn: str, fn: T.Any) -> None:
     paths = [p for p in enumerate_paths(fn.body, unroll=1) if p.outcome in ('return', 'fall')]
     if not paths:
@@ -443,6 +488,10 @@ def _queues_emptied(ctx: RuleCtx, mod: Module, qn: str, fn: T.Any) -> None:
                 elif isinstance(e, ast.Call) and norm(e.func) == 'len' and len(e.args) == 1 and attr_chain(e.args[0]) in ('self.pre', 'self.post'):
                     state[attr_chain(e.args[0])[5:]] = 'nonempty' if ev.val else 'empty'  # type: ignore[index]
             elif ev.kind == 'stmt' and e is not None:
+                if isinstance(e, ast.Delete):
+                    for t in e.targets:
+                        if isinstance(t, ast.Subscript) and attr_chain(t.value) in ('self.pre', 'self.post') and norm(t.slice) == ':':
+                            state[attr_chain(t.value)[5:]] = 'empty'  # type: ignore[index]
                 if isinstance(e, ast.Expr) and isinstance(e.value, ast.Call) and isinstance(e.value.func, ast.Attribute):
                     c = attr_chain(e.value.func.value)
                     if c in ('self.pre', 'self.post'):
@@ -460,8 +509,11 @@ def _queues_emptied(ctx: RuleCtx, mod: Module, qn: str, fn: T.Any) -> None:
                             empty = (isinstance(v, (ast.List, ast.Tuple)) and not v.elts) or \
                                 (isinstance(v, ast.Call) and not v.args and attr_chain(v.func) in ('collections.deque', 'deque', 'list'))
                             state[c[5:]] = 'empty' if empty else 'nonempty'
+        opaque = _opaque_on(p)
         for q, s in state.items():
             if s != 'empty':
+                if opaque:
+                    raise Undecided(f'{qn}: cannot tell whether self.{q} is emptied on the path [{p.describe()[:120]}]: it runs `{opaque}`')
                 bad.setdefault(q, p.describe()[:200])
     for q, d in bad.items():
         ctx.violation(mod, qn, f'self.{q} after flush', f'flush_pre_post can return with entries left in self.{q} (path: {d}): the list stays unflushed '
@@ -605,8 +657,13 @@ def r3(ctx: RuleCtx) -> None:
     for a in ftab.atoms():
         if a not in (Atom('truth', ('self.pre',)), Atom('truth', ('self.post',))):
             raise Undecided(f'{qn}: fast path tests {a!r}')
-    FRONT = ('self._container[0:0] := self.pre', 'self._container[:0] := self.pre')
-    BACK = ('call self._container.extend(self.post)', 'self._container Add= self.post')
+    FRONT = ('self._container[0:0] := %s', 'self._container[:0] := %s', 'self._container := list(%s) + self._container',
+             'self._container := [*%s, *self._container]')
+    BACK = ('call self._container.extend(%s)', 'self._container Add= %s', 'self._container Add= list(%s)', 'self._container := self._container + list(%s)',
+            'self._container := [*self._container, *%s]')
+    for s_ in fast:
+        if isinstance(s_, (ast.For, ast.While, ast.With, ast.Try)):
+            raise Undecided(f'{qn}: fast path contains `{short(s_, 50)}`')
     lost: T.Dict[str, int] = {'pre': 0, 'post': 0}
     nw = 0
     for w in ftab.worlds([Atom('truth', ('self.pre',)), Atom('truth', ('self.post',))]):
@@ -614,20 +671,29 @@ def r3(ctx: RuleCtx) -> None:
         if len(rows) != 1:
             raise Undecided(f'{qn}: fast path: {len(rows)} rows fire')
         nw += 1
+        opaque = _opaque_on(rows[0].path)
+        if opaque:
+            raise Undecided(f'{qn}: fast path runs `{opaque}`')
         effs = [e for e in rows[0].effects if not e.endswith('.clear()')]
+        good = {q: [f % f'self.{q}' for f in forms] for q, forms in (('pre', FRONT), ('post', BACK))}
+        wrong = {q: [f % f'self.{q}' for f in forms] for q, forms in (('pre', BACK), ('post', FRONT))}
         for e in effs:
-            if '_container' in e and e not in FRONT + BACK:
-                if re.search(r'self\.(pre|post)\b', e):
-                    ctx.violation(mod, qn, e, f'fast path merges with `{e}`: pending prepends must be spliced in front (`self._container[0:0] = self.pre`) '
-                                  'and pending appends added behind (`self._container.extend(self.post)`)', ifst)
+            if '_container' in e and e not in good['pre'] + good['post']:
+                hit = [q for q in ('pre', 'post') if e in wrong[q]]
+                if hit:
+                    ctx.violation(mod, qn, e, f'fast path merges self.{hit[0]} with `{e}`, i.e. at the {"back" if hit[0] == "pre" else "front"}: pending prepends belong in front '
+                                  'of _container and pending appends behind it', ifst)
                     return
-                raise Undecided(f'{qn}: fast path effect `{e}`')
-        for q, forms in (('pre', FRONT), ('post', BACK)):
-            if w.get(Atom('truth', (f'self.{q}',)), True) and not [e for e in effs if e in forms]:
-                lost[q] += 1
+                raise Undecided(f'{qn}: fast path effect `{e}` is not a known way of merging a queue')
+        for q in ('pre', 'post'):
+            if w.get(Atom('truth', (f'self.{q}',)), True) and not [e for e in effs if e in good[q]]:
+                if f'call self.{q}.clear()' in rows[0].effects:
+                    lost[q] += 1       # positive evidence: the queue is cleared on this row although nothing merged it
+                else:
+                    raise Undecided(f'{qn}: fast path neither merges nor clears a non-empty self.{q} in a recognised way')
     for q in ('pre', 'post'):
         ctx.require(not lost[q], f'{qn}: fast path: a non-empty self.{q} is merged at the {"front" if q == "pre" else "back"} of _container ({nw} worlds)',
-                    mod, qn, f'fast path self.{q}', f'fast path does not merge a non-empty self.{q} into _container (entries are lost when the queue is cleared)', ifst)
+                    mod, qn, f'fast path self.{q}', f'fast path clears a non-empty self.{q} without merging it into _container: the entries are lost', ifst)
 
     # slow path
     loops = [s for s in slow if isinstance(s, ast.For)]
@@ -672,14 +738,26 @@ def r3(ctx: RuleCtx) -> None:
     order_ok = (pre.out == cont.out and post.out != pre.out and pos['pre'] < pos['_container'] and pos['post'] < pos['_container']
                 and len(tail) == 1 and tail[0][0] > pos['_container'] and len(assign) == 1 and assign[0][0] > pos['_container']
                 and norm(assign[0][1].value) == pre.out)  # type: ignore[attr-defined]
+    alt_sum = (len(assign) == 1 and not tail and norm(assign[0][1].value) in (f'{pre.out} + {post.out}', f'{pre.out} + list({post.out})',  # type: ignore[attr-defined]
+                                                                                 f'[*{pre.out}, *{post.out}]')
+               and pre.out == cont.out and post.out != pre.out and pos['pre'] < pos['_container'] and pos['post'] < pos['_container']
+               and assign[0][0] > pos['_container'])
+    order_ok = order_ok or alt_sum
     if not order_ok:
-        others = [s for s in slow if any(isinstance(n, ast.Attribute) and n.attr == '_container' and isinstance(n.ctx, ast.Store) for n in ast.walk(s))]
-        if len(assign) != 1 or len(tail) > 1 or len(others) != len(assign):
+        skip = {id(lp) for lp in loops}
+        uses_post = any(post.out in {n.id for n in ast.walk(s_) if isinstance(n, ast.Name) and isinstance(n.ctx, ast.Load)}
+                        for s_ in slow if id(s_) not in skip)
+        if len(tail) == 1 and tail[0][0] < pos['_container'] and pre.out == cont.out:
+            why = f'the kept appended arguments ({post.out}) are added to {pre.out} before the surviving container entries'
+        elif not uses_post:
+            why = f'the kept appended arguments ({post.out}) are built but never read again: everything queued in self.post is lost'
+        elif pre.out == cont.out and pos['pre'] > pos['_container']:
+            why = 'the kept prepended arguments are added after the surviving container entries'
+        else:
             raise Undecided(f'{qn}: assembly of the merged list is not in a known form')
-    ctx.require(order_ok, f'{qn}: result is [pre kept] + [container kept] + [post kept] (built in {pre.out}, tail {post.out})', mod, qn, 'assembly order',
-                f'assembly order is wrong: pre walk at {pos["pre"]}, post walk at {pos["post"]}, container walk at {pos["_container"]}, '
-                f'tail extension {[i for i, _ in tail]}, kept-lists pre={pre.out} container={cont.out} post={post.out}; '
-                'the merged list must be pre + surviving container entries + post', fn)
+        ctx.violation(mod, qn, 'assembly order', f'assembly order is wrong: {why}; the merged list must be pre + surviving container entries + post', fn)
+    else:
+        ctx.ok(f'{qn}: result is [pre kept] + [container kept] + [post kept] (built in {pre.out}, tail {post.out})')
     # containers start empty
     inits: T.Dict[str, str] = {}
     for s in slow:
@@ -688,9 +766,25 @@ def r3(ctx: RuleCtx) -> None:
             if isinstance(t, ast.Name):
                 inits[t.id] = norm(s.value)
     need = {pre.out: ('[]', 'list()'), post.out: ('collections.deque()', 'deque()', '[]', 'list()'), pre.added: ('set()',), post.added: ('set()',)}
+    init_nodes: T.Dict[str, ast.AST] = {}
+    for s_ in slow:
+        if isinstance(s_, (ast.Assign, ast.AnnAssign)) and s_.value is not None:
+            t_ = s_.targets[0] if isinstance(s_, ast.Assign) else s_.target
+            if isinstance(t_, ast.Name):
+                init_nodes.setdefault(t_.id, s_.value)
     for name, forms in need.items():
-        ctx.require(inits.get(name or '') in forms, f'{qn}: {name} starts empty', mod, qn, f'initial value of {name}',
-                    f'{name} is initialised as {inits.get(name or "")!r}, expected an empty {forms[0]}', fn)
+        got_i = inits.get(name or '')
+        if got_i in forms:
+            ctx.ok(f'{qn}: {name} starts empty')
+            continue
+        v_ = init_nodes.get(name or '')
+        nonempty = isinstance(v_, (ast.List, ast.Tuple, ast.Set, ast.Dict)) and bool(getattr(v_, 'elts', None) or getattr(v_, 'keys', None))
+        aliased = v_ is not None and attr_chain(v_) is not None
+        if nonempty or aliased:
+            ctx.violation(mod, qn, f'initial value of {name}', f'{name} starts as {got_i}: '
+                          f'{"it shares the list it is rebuilt from" if aliased else "it is not empty"}, the merged list gets extra / duplicated entries', fn)
+        else:
+            raise Undecided(f'{qn}: {name} is initialised as {got_i!r}, not a recognised empty container')
 
     _iadd(ctx, mod)
 
